@@ -303,7 +303,7 @@ def grammar_json(g):
         else:
             rules.append({"kind": "extern", "name": r.name, "fn": oracle_json(r.fn)})
     ws = g.index("Whitespace") if g.rule("Whitespace") is not None else 0
-    return {"id": g.id, "rules": rules, "nodes": nodes, "root": g.index(g.root), "ws": ws,
+    return {"id": g.id, "rules": rules, "nodes": nodes, "root": g.index(g.root), "ws": ws, "lrfirst": bool(g.meta.get("lrfirst", True)),
             "alpha": [ord(c) for c in g.alpha], "maxlen": g.maxlen,
             "extra": [[ord(c) for c in x] for x in g.extra]}
 
